@@ -87,6 +87,22 @@ theorem C17_select (inc exc : List (List Tok)) (files : List (List Char)) (hne :
     · exact hne p hf h
     · exact he h
 
+/-- Ignore lists (`Project.loadPackage`): a package directory loads iff no pattern of the (non-empty) ignore
+list matches the path of the directory or of one of its ancestors, the project root (`""`) included. -/
+theorem C17_ignore (tss : List (List Tok)) (hne : tss ≠ []) (dirs : List (List Char)) :
+    packageLoaded (some (compileSet tss)) dirs = true ↔
+      ∀ pre ∈ prefixes dirs, ¬ ∃ ts ∈ tss, globMatch ts (joinPath pre) := by
+  simp only [packageLoaded, List.all_eq_true, Bool.not_eq_true', ← Bool.not_eq_true, C17_set_general]
+  constructor
+  · intro h pre hpre hm; exact h pre hpre (Or.inr hm)
+  · intro h pre hpre hm
+    rcases hm with ⟨he, _⟩ | hm
+    · exact hne he
+    · exact h pre hpre hm
+
+example : packageLoaded (some (compileSet [[.ch 'v']])) ["v".toList, "x".toList] = false ∧
+    packageLoaded (some (compileSet [[.ch 'v']])) ["w".toList, "v".toList] = true := by decide
+
 /-- The excluded point of `C17_union`, decided rather than hidden: an empty set compiles to `^(?:)$`,
 which accepts the empty path and nothing else (no caller can present the empty path; see DESIGN.md §4). -/
 theorem C17_empty_set (p : List Char) : matchString (compileSet []) p = true ↔ p = [] := by
